@@ -184,6 +184,8 @@ def run(ctx):
     # D2b: the address the instruction encodes is the address the rule asked for
     from x86enc import check_disp8
     check_disp8(db, rep, "D2b-DISP8-RANGE")
+    from x86enc import check_mod0_base
+    check_mod0_base(db, rep, "D2b-MOD0-BASE")
 
     # ---- D3 / D4 ---------------------------------------------------------------------
     d34(db, rep)
